@@ -63,6 +63,15 @@ def main():
         tl = sum(v['lines'] for k, v in rep['files'].items() if k.startswith('src/')); th = sum(v['lines_executed'] for k, v in rep['files'].items() if k.startswith('src/'))
         rep['src_total'] = {'lines': tl, 'lines_executed': th, 'percent': round(100.0 * th / tl, 1) if tl else 0}
         json.dump(rep, open(os.path.join(VERIF, 'evidence', 'coverage.json'), 'w'), indent=1)
+        if os.environ.get('COV_LINES'):     # for the author: the lines never executed, per file (not part of the evidence)
+            with open(os.environ['COV_LINES'], 'w') as fo:
+                for f, fl in sorted(files.items()):
+                    miss = sorted(k for k, c in fl.items() if c == 0)
+                    if not f.startswith('src/') or not miss: continue
+                    try: src = open(os.path.join(REPO, f)).read().split('\n')
+                    except OSError: continue
+                    fo.write('=== %s\n' % f)
+                    for k in miss: fo.write('%5d: %s\n' % (k, src[k - 1] if k - 1 < len(src) else ''))
         print('src total: %d of %d lines (%.1f%%)' % (th, tl, rep['src_total']['percent']))
         for f, v in rep['files'].items():
             if f.startswith('src/'): print('  %-28s %5d/%5d %5.1f%%  never entered: %d functions' % (f, v['lines_executed'], v['lines'], v['percent'], len(rep['functions_never_entered'].get(f, []))))
